@@ -478,3 +478,223 @@ Definition new_revision (c : ccfg) (parent : json) (patch : json) (name : string
                                                                        (get_name parent) (get_uid parent))])]))])
         patch [])
   end.
+
+(* ---------- claiming ControllerRevisions (typed client, UpdateWithRetries) ---------- *)
+Fixpoint update_with_retries (fuel : nat) (ns name uid : string) (f : json -> option json) : prog apires :=
+  match fuel with
+  | O => Ret (RErr EConflict)
+  | S n =>
+      g <~ api (rq_get rev_res ns name) ;;
+      match g with
+      | RErr EConflict => match n with O => Ret (RErr EConflict) | _ => update_with_retries n ns name uid f end
+      | RErr e => Ret (RErr e)
+      | ROk cur =>
+          if negb (String.eqb (get_uid cur) uid) then Ret (RErr EGone) else
+          match f cur with
+          | None => Ret (ROk cur)
+          | Some upd =>
+              u <~ api (rq_put false rev_res ns name upd) ;;
+              match u with
+              | RErr EConflict => match n with O => Ret (RErr EConflict) | _ => update_with_retries n ns name uid f end
+              | r => Ret r
+              end
+          end
+      end
+  end.
+
+Definition revision_selector (c : ccfg) (parent : json) : option selector :=
+  match make_selector c parent with
+  | Some (SelReqs l) =>
+      Some (SelReqs (l ++ [mkReq label_key_api_group OpIn [group_of (p_api_version c)];
+                           mkReq label_key_resource OpIn [p_resource c]]))
+  | other => other
+  end.
+
+Definition claim_rev_one (c : ccfg) (parent : json) (sel : selector)
+           (st : option bool * list json * bool) (o : json) : prog (option bool * list json * bool) :=
+  let '(once, claimed, failed) := st in
+  let ns := get_ns parent in
+  match claim_decision (get_uid parent) (is_deleting parent) sel o with
+  | ClKeep => Ret (once, claimed ++ [o], failed)
+  | ClIgnore => Ret (once, claimed, failed)
+  | ClRelease =>
+      r <~ update_with_retries retry_steps ns (get_name o) (get_uid o)
+             (fun cur => Some (set_owner_refs cur (remove_owner_ref (get_owner_refs cur) (get_uid parent)))) ;;
+      match r with
+      | ROk _ | RErr ENotFound | RErr EGone => Ret (once, claimed, failed)
+      | RErr _ => Ret (once, claimed, true)
+      end
+  | ClAdopt =>
+      '(once', can) <~ match once with
+                       | Some b => Ret (once, b)
+                       | None => b <~ can_adopt_check c parent ;; Ret (Some b, b)
+                       end ;;
+      if negb can then Ret (once', claimed, true) else
+      r <~ update_with_retries retry_steps ns (get_name o) (get_uid o)
+             (fun cur => Some (set_owner_refs cur
+                (add_owner_ref (get_owner_refs cur)
+                   (controller_ref (p_api_version c) (p_kind c) (get_name parent) (get_uid parent))))) ;;
+      match r with
+      | ROk _ => Ret (once', claimed ++ [o], failed)
+      | RErr ENotFound => Ret (once', claimed, failed)
+      | RErr _ => Ret (once', claimed, true)
+      end
+  end.
+
+(* None = error *)
+Definition claim_revisions (c : ccfg) (k : cache) (parent : json) : prog (option (list json)) :=
+  match revision_selector c parent with
+  | None => Ret None
+  | Some sel =>
+      (* revisionLister.ControllerRevisions(ns): every namespace when the parent has none *)
+      let all := filter (fun o => String.eqb (get_ns parent) "" || String.eqb (get_ns o) (get_ns parent)) (cached k rev_res) in
+      '(_, claimed, failed) <~ foldM (claim_rev_one c parent sel) all (None, [], false) ;;
+      Ret (if failed then None else Some claimed)
+  end.
+
+(* ---------- manageRevisions: the first failing request aborts ---------- *)
+Definition rev_equal (old new : revision) : bool :=
+  jeqb (rev_obj old) (rev_obj new) && jeqb (rev_patch old) (rev_patch new) &&
+  (* typed DeepEqual: an absent children list (nil) differs from the empty list the claims pass builds *)
+  match rev_children new with
+  | [] => false
+  | cs => jeqb (JArr (map json_of_rck (rev_children old))) (JArr (map json_of_rck cs))
+  end.
+
+Fixpoint run_until_error (ps : list (prog apires)) : prog bool :=   (* true = all succeeded *)
+  match ps with
+  | [] => Ret true
+  | p :: rest => r <~ p ;; match r with ROk _ => run_until_error rest | RErr _ => Ret false end
+  end.
+
+Definition manage_revisions (ns : string) (observed : list revision) (desired : list revision) : prog bool :=
+  let deletes := flat_map (fun o =>
+                   if existsb (fun d => String.eqb (rev_name d) (rev_name o)) desired then []
+                   else [api (mkRq VDelete rev_res ns (rev_name o) JNull (get_uid (rev_obj o)) "")]) observed in
+  let upserts := flat_map (fun d =>
+                   match find (fun o => String.eqb (rev_name o) (rev_name d)) (rev observed) with
+                   | Some o => if rev_equal o d then []
+                               else [api (rq_put false rev_res ns (rev_name d) (json_of_revision d))]
+                   | None =>
+                       (* the typed client refuses to create a namespaced object without a namespace *)
+                       if String.eqb ns "" then [Ret (RErr EInvalid)]
+                       else [api (rq_create rev_res ns (rev_name d) (json_of_revision d))]
+                   end) desired in
+  run_until_error (deletes ++ upserts).
+
+(* ---------- per-revision hook calls ---------- *)
+Definition call_hooks (c : ccfg) (observed related : umap) (prs : list prev) : prog (list (prev * hook_result)) :=
+  mapM (fun p => r <~ call_hook c (pr_parent p) observed related ;; Ret (p, r)) prs.
+
+Definition first_hook_failure (rs : list (prev * hook_result)) : option hook_result :=
+  match find (fun pr => match snd pr with HRResp _ => false | _ => true end) rs with
+  | Some (_, r) => Some r
+  | None => None
+  end.
+
+(* ---------- syncRevisions with a rolling strategy ---------- *)
+Definition fresh_revision_name (k : cache) : string :=
+  match cached k "fresh-revision-name" with JStr s :: _ => s | _ => "" end.
+
+Definition sync_revisions_rolling (c : ccfg) (k : cache) (parent : json) (observed related : umap)
+  : prog hook_result :=
+  oc <~ claim_revisions c k parent ;;
+  match oc with
+  | None => Ret HRErr
+  | Some claimed =>
+      let observed_revs := map revision_of_json claimed in
+      match make_patch (obj_map parent) (field_paths c) [] with
+      | None => Ret HRErr
+      | Some latest_patch =>
+          (* materialise the parent each revision stands for *)
+          let step := fun (acc : option (option revision * list prev)) (r : revision) =>
+            match acc with
+            | None => None
+            | Some (latest_rev, olds) =>
+                match rev_patch r with
+                | JObj pm =>
+                    if jeqb (JObj pm) (JObj latest_patch) then Some (Some r, olds)
+                    else match apply_patch (obj_map parent) pm (field_paths c) with
+                         | Some p' => Some (latest_rev, olds ++ [mkPrev (JObj p') r empty_resp []])
+                         | None => None end
+                | JNull => if jeqb (JObj []) (JObj latest_patch) then Some (Some r, olds)
+                           else Some (latest_rev, olds ++ [mkPrev parent r empty_resp []])
+                | _ => None
+                end
+            end in
+          match fold_left step observed_revs (Some (None, [])) with
+          | None => Ret HRErr
+          | Some (latest_rev, olds) =>
+              match (match latest_rev with
+                     | Some r => Some r
+                     | None => new_revision c parent (JObj latest_patch) (fresh_revision_name k) end) with
+              | None => Ret HRErr
+              | Some lrev =>
+                  let prs0 := mkPrev parent lrev empty_resp [] :: olds in
+                  answers <~ call_hooks c observed related prs0 ;;
+                  match first_hook_failure answers with
+                  | Some HRNone => Ret HRErr      (* no sync hook: reported as a sync error *)
+                  | Some r => Ret r
+                  | None =>
+                      let prs1 := map (fun pa => match pa with
+                                    | (p, HRResp r) => mkPrev (pr_parent p) (pr_rev p) r
+                                                              (relative_desired (get_ns parent) (hr_children r))
+                                    | (p, _) => p end) answers in
+                      match sync_rolling_update c (get_ns parent) observed prs1 with
+                      | None => Ret HRErr
+                      | Some (prs2, _) =>
+                          let prs3 := prune prs2 in
+                          ok <~ manage_revisions (get_ns parent) observed_revs (map pr_rev prs3) ;;
+                          if negb ok then Ret HRErr else
+                          match prs3 with
+                          | [] => Ret HRErr
+                          | l3 :: _ =>
+                              Ret (HRResp (mkHR (hr_status (pr_resp l3))
+                                                (aggregate_children (get_ns parent) prs3)
+                                                (min_resync prs3)
+                                                (forallb (fun p => hr_finalized (pr_resp p)) prs3)))
+                          end
+                      end
+                  end
+              end
+          end
+      end
+  end.
+
+(* syncRevisions *)
+Definition hook_phase_rolling (c : ccfg) (k : cache) (parent : json) (observed related : umap) : prog hook_result :=
+  if negb (any_rolling c) || (is_deleting parent && negb (should_finalize c parent))
+  then call_hook c parent observed related
+  else sync_revisions_rolling c k parent observed related.
+
+(* ---------- the composite sync with rolling strategies ---------- *)
+Definition sync_parent_object_r (c : ccfg) (k : cache) (parent : json) : prog sync_result :=
+  if ignores_parent c parent then Ret SDone else
+  fr <~ sync_finalizer c parent ;;
+  match fr with
+  | RErr _ => Ret SErr
+  | ROk parent =>
+      if ignores_parent c parent then Ret SDone else
+      oc <~ claim_children c k parent ;;
+      match oc with
+      | None => Ret SErr
+      | Some observed =>
+          orel <~ related_phase c k parent ;;
+          match orel with
+          | None => Ret SErr
+          | Some related =>
+              hr <~ hook_phase_rolling c k parent observed related ;;
+              match hr with
+              | HRNone | HRErr => Ret SErr
+              | HR429 n => Ret (SRequeue n)
+              | HRResp r => finish_sync c parent observed r
+              end
+          end
+      end
+  end.
+
+Definition sync_r (c : ccfg) (k : cache) : prog sync_result :=
+  match k_parent k with
+  | None => Ret SDone
+  | Some parent => sync_parent_object_r c k parent
+  end.
